@@ -287,6 +287,12 @@ func (c *RollingFileAppender) clearExpiredFiles() {
 		if !strings.HasPrefix(entry.Name(), c.FileName+".") {
 			continue
 		}
+		// Only files this appender can have produced: "<name>.<yyyyMMddHHmmss>".
+		// A bare prefix match would also remove e.g. "<name>.wf.<ts>" of a sibling
+		// appender or unrelated "<name>.bak" files.
+		if !isRotationSuffix(entry.Name()[len(c.FileName)+1:]) {
+			continue
+		}
 		info, err := entry.Info()
 		if err != nil {
 			continue
@@ -296,4 +302,17 @@ func (c *RollingFileAppender) clearExpiredFiles() {
 			_ = os.Remove(filePath)
 		}
 	}
+}
+
+// isRotationSuffix reports whether s looks like TimeRotation.Format output.
+func isRotationSuffix(s string) bool {
+	if len(s) != len("20060102150405") {
+		return false
+	}
+	for i := range len(s) {
+		if s[i] < '0' || s[i] > '9' {
+			return false
+		}
+	}
+	return true
 }
